@@ -448,7 +448,7 @@ func TestVerif_C36(t *testing.T) {
 	mc.Run(t, "C36", func(r *mc.R) {
 		maxSize := mc.Pick(r, 3, 4)
 		r.Rule("rule sets {cancun, prague, osaka, amsterdam} x 3 payload-attribute combinations (withdrawals none / one / two incl. a zero amount and a sender, beacon root zero / set, random zero / set, fee recipient fresh / a sender, miner blob cap default / 2) " +
-			"x every subset of <= max_pool_size transactions of the 22-entry alphabet as pool content (quick: subsets of the maximal size take one attribute combination each, round robin); per case the empty and the full payload are round-tripped through engine executable data and imported on an independent chain; " +
+			"x every subset of <= max_pool_size transactions of the 22-entry alphabet as pool content (quick: subsets of 2 and 3 transactions take one attribute combination each, round robin); per case the empty and the full payload are round-tripped through engine executable data and imported on an independent chain; " +
 			"distinct = distinct imported block hashes")
 		r.Bound("max_pool_size", maxSize)
 		r.Assume("the pool is a stub txpool.SubPool that hands the builder the enumerated content unfiltered (superset of what the real legacy/blob pools would return); blob sidecars carry dummy commitments/proofs (nothing on the build/import path verifies KZG proofs)")
@@ -476,8 +476,8 @@ func TestVerif_C36(t *testing.T) {
 			r.Bound("pools."+f.name, len(subsets))
 			for ai, a := range w.attrs() {
 				for si, s := range subsets {
-					// quick tier: pools of the maximal size get one of the attribute combinations (round robin)
-					if r.Quick() && len(s) == maxSize && si%len(w.attrs()) != ai {
+					// quick tier: pools of two and more transactions get one of the attribute combinations (round robin)
+					if r.Quick() && len(s) >= 2 && si%len(w.attrs()) != ai {
 						continue
 					}
 					jobs = append(jobs, job{w, a, s})
@@ -531,7 +531,7 @@ func TestVerif_C36(t *testing.T) {
 			desc := map[string]any{"fork": j.w.fork.name, "attrs": j.a.name, "pool": names}
 			g := getRig(j.w, j.a)
 			defer putRig(g)
-			r.Case(desc, func() error { return g.check(r, j.subset, i%16 == 0 || len(j.subset) <= 1) })
+			r.Case(desc, func() error { return g.check(r, j.subset, i%32 == 0 || len(j.subset) <= 1) })
 			if i%211 == 0 {
 				r.Sample(desc)
 			}
